@@ -835,7 +835,11 @@ impl Xot {
                         }
                         for name in self.attributes(node).keys() {
                             let namespace_id = self.namespace_for_name(name);
-                            if !fullname_serializer.is_namespace_known(namespace_id) {
+                            // a default namespace declaration is of no use to an
+                            // attribute: it needs a binding with a prefix
+                            if namespace_id != self.no_namespace_id
+                                && fullname_serializer.attribute_prefix(name).is_err()
+                            {
                                 namespaces.push(namespace_id);
                             }
                         }
